@@ -3,8 +3,13 @@ package main
 import (
 	"crypto/sha256"
 	"fmt"
+	"go/constant"
 	"go/types"
+	"reflect"
 	"strings"
+	"sync"
+
+	"golang.org/x/tools/go/ssa"
 )
 
 const pktT = teleportMod + "/x/xibc/core/packet/types"
@@ -17,6 +22,9 @@ func (it *Interp) abiPack(recv Val, t types.Type) Val {
 		recv = *p
 		t = t.Underlying().(*types.Pointer).Elem()
 	}
+	if e := it.abiTuple(t).packErr; e != "" {
+		return Tuple{&StrV{IsB: true, Nil: true}, it.newErr(IfaceV{}, e)}
+	}
 	return Tuple{&StrV{Boxed: copyDeep(recv), BoxT: t, BoxK: "abi"}, IfaceV{}}
 }
 
@@ -28,7 +36,7 @@ func (it *Interp) abiDecode(ptr Val, elem types.Type, bz *StrV) Val {
 	tk := typeKey(elem)
 	if bz.Boxed != nil {
 		if bz.BoxK == "abi" && typeKey(bz.BoxT) == tk {
-			*p = copyDeep(bz.Boxed)
+			*p = it.abiSurvivors(copyDeep(bz.Boxed), elem)
 			return IfaceV{}
 		}
 		return it.newErr(IfaceV{}, "abi decode: wrong type")
@@ -36,7 +44,7 @@ func (it *Interp) abiDecode(ptr Val, elem types.Type, bz *StrV) Val {
 	t := it.toA(bz)
 	it.strLenTerm(t)
 	if it.p.branch(App("abidecodes!"+tk, SBool, t)) {
-		*p = it.freshValue(elem, "", it.decodeMaker(t, "abi!"+tk), freshOpts{maxLen: it.ex.cfg.DecodeMaxLen})
+		*p = it.abiSurvivors(it.freshValue(elem, "", it.decodeMaker(t, "abi!"+tk), freshOpts{maxLen: it.ex.cfg.DecodeMaxLen}), elem)
 		return IfaceV{}
 	}
 	// json.Unmarshal may have filled part of the value before failing
@@ -193,4 +201,192 @@ func (it *Interp) hasherMethod(n *Native, name string, a []Val) Val {
 	}
 	it.fail("hasher method %s", name)
 	return nil
+}
+
+// ---- which fields survive ABIPack / ABIDecode ----
+// ABIDecode goes abi.Unpack -> anonymous struct (one field per tuple component, named ToCamelCase(component) with tag
+// json:"<component>") -> json.Marshal -> json.Unmarshal into the Go struct. A struct field therefore receives a value only
+// if its JSON name matches a component name (exactly or case-insensitively, encoding/json's rule); Pack takes the value of
+// component c from the struct field named ToCamelCase(c). The component names are read from /repo's source on every run:
+// the tuple global the type's ABIDecode refers to, and the abi.NewType call that initialises it.
+
+type abiTupleInfo struct {
+	comps []string
+	// per struct field: index of the struct field whose value it receives after a pack/decode round trip, or -1 (zero value)
+	from    []int
+	packErr string
+}
+
+var abiTupleCache sync.Map
+
+func abiCamel(s string) string {
+	parts := strings.Split(s, "_")
+	for i, p := range parts {
+		if len(p) > 0 {
+			parts[i] = strings.ToUpper(p[:1]) + p[1:]
+		}
+	}
+	return strings.Join(parts, "")
+}
+
+func jsonFieldName(f *types.Var, tag string) (string, bool) {
+	name := f.Name()
+	if v, ok := reflect.StructTag(tag).Lookup("json"); ok {
+		if v == "-" {
+			return "", false
+		}
+		if n := strings.Split(v, ",")[0]; n != "" {
+			name = n
+		}
+	}
+	return name, f.Exported()
+}
+
+func (it *Interp) abiTuple(t types.Type) *abiTupleInfo {
+	key := typeKey(t)
+	if v, ok := abiTupleCache.Load(key); ok {
+		return v.(*abiTupleInfo)
+	}
+	info := it.abiTupleCompute(t)
+	abiTupleCache.Store(key, info)
+	return info
+}
+
+func (it *Interp) abiTupleCompute(t types.Type) *abiTupleInfo {
+	named, ok := t.(*types.Named)
+	st, ok2 := t.Underlying().(*types.Struct)
+	if !ok || !ok2 {
+		it.fail("abi tuple of %s", t)
+	}
+	pkg := it.prog.Package(named.Obj().Pkg())
+	dec := it.prog.LookupMethod(types.NewPointer(t), named.Obj().Pkg(), "ABIDecode")
+	if pkg == nil || dec == nil {
+		it.fail("no ABIDecode for %s", t)
+	}
+	var g *ssa.Global
+	for _, b := range dec.Blocks {
+		for _, in := range b.Instrs {
+			for _, op := range in.Operands(nil) {
+				if gl, ok := (*op).(*ssa.Global); ok && strings.HasPrefix(gl.Name(), "Tuple") && g == nil {
+					g = gl
+				}
+			}
+		}
+	}
+	if g == nil {
+		it.fail("%s.ABIDecode refers to no Tuple* global", t)
+	}
+	var names []string
+	for _, m := range pkg.Members {
+		fn, ok := m.(*ssa.Function)
+		if !ok || fn.Blocks == nil {
+			continue
+		}
+		stores := false
+		var call *ssa.Call
+		for _, b := range fn.Blocks {
+			for _, in := range b.Instrs {
+				if s, ok := in.(*ssa.Store); ok && s.Addr == ssa.Value(g) {
+					stores = true
+				}
+				if c, ok := in.(*ssa.Call); ok && c.Call.StaticCallee() != nil && c.Call.StaticCallee().Name() == "NewType" && len(c.Call.Args) == 3 {
+					call = c
+				}
+			}
+		}
+		if !stores || call == nil {
+			continue
+		}
+		sl, ok := call.Call.Args[2].(*ssa.Slice)
+		if !ok {
+			it.fail("abi.NewType components of %s are not a literal", g.Name())
+		}
+		arr := sl.X
+		n := int(arr.Type().Underlying().(*types.Pointer).Elem().Underlying().(*types.Array).Len())
+		names = make([]string, n)
+		for _, b := range fn.Blocks {
+			for _, in := range b.Instrs {
+				s, ok := in.(*ssa.Store)
+				if !ok {
+					continue
+				}
+				fa, ok := s.Addr.(*ssa.FieldAddr)
+				if !ok {
+					continue
+				}
+				ia, ok := fa.X.(*ssa.IndexAddr)
+				if !ok || ia.X != arr {
+					continue
+				}
+				idx, ok := ia.Index.(*ssa.Const)
+				cv, ok2 := s.Val.(*ssa.Const)
+				if !ok || !ok2 {
+					continue
+				}
+				fst := fa.X.Type().Underlying().(*types.Pointer).Elem().Underlying().(*types.Struct)
+				if fst.Field(fa.Field).Name() == "Name" {
+					names[idx.Int64()] = constant.StringVal(cv.Value)
+				}
+			}
+		}
+	}
+	if names == nil {
+		it.fail("initialiser of %s not found", g.Name())
+	}
+	info := &abiTupleInfo{comps: names, from: make([]int, st.NumFields())}
+	fieldByName := map[string]int{}
+	for i := 0; i < st.NumFields(); i++ {
+		fieldByName[st.Field(i).Name()] = i
+	}
+	for _, c := range names {
+		if _, ok := fieldByName[abiCamel(c)]; !ok {
+			info.packErr = "abi: field " + c + " can't be found in the given value"
+		}
+	}
+	for i := 0; i < st.NumFields(); i++ {
+		info.from[i] = -1
+		jn, ok := jsonFieldName(st.Field(i), st.Tag(i))
+		if !ok {
+			continue
+		}
+		match := ""
+		for _, c := range names {
+			if c == jn {
+				match = c
+			}
+		}
+		if match == "" {
+			for _, c := range names {
+				if strings.EqualFold(c, jn) {
+					match = c
+					break
+				}
+			}
+		}
+		if match != "" {
+			if src, ok := fieldByName[abiCamel(match)]; ok {
+				info.from[i] = src
+			}
+		}
+	}
+	return info
+}
+
+// abiSurvivors applies the round-trip field mapping to a decoded struct value.
+func (it *Interp) abiSurvivors(v Val, t types.Type) Val {
+	sv, ok := v.(*StructV)
+	if !ok {
+		return v
+	}
+	info := it.abiTuple(t)
+	st := t.Underlying().(*types.Struct)
+	out := &StructV{T: sv.T, F: make([]Val, len(sv.F))}
+	for i := range sv.F {
+		if info.from[i] >= 0 {
+			out.F[i] = sv.F[info.from[i]]
+		} else {
+			out.F[i] = it.zero(st.Field(i).Type())
+		}
+	}
+	return out
 }
